@@ -4,9 +4,20 @@ impl  : evaluate_hodograph, get_curvature, newton_refine (curve), newton_refine 
         jacobian_both, jacobian_det, newton_refine (triangle)  -- through the shims
 model : driver `hodograph`, `curvature_parts`, `newton_refine_curve` (curve part)
 spec  : exact derivatives of the polynomial map in the power basis (independent of forward differences)
+
+history independence (kinds `*-after`): the property holds for EVERY call, whatever was called before.  A Newton step /
+curvature is a function of its arguments only, so the ordinary judged cases are run again right after calls at DEGENERATE
+BUT VALID inputs - inputs at which the property does not determine the answer (B'(s) = 0: 0/0; singular Jacobian;
+zero tangent) or makes it a no-op (exact hit) - issued through the low-level routine and through the public callers that
+end in it (locate_point, Curve.locate).  The degenerate calls themselves are not judged; the judged call that follows
+is, against the same exact Newton step / curvature as everywhere else.  The replay case carries the earlier calls.
 """
+import os
 import sys
+import json
 import math
+import subprocess
+import warnings
 import numpy as np
 from fractions import Fraction as Fr
 import common as C
@@ -27,6 +38,71 @@ def d1_abs(row, s):
     if n == 0:
         return Fr(0)
     return n * X.bern_abs([row[j + 1] - row[j] for j in range(n)], s) + 0
+
+
+def power_to_bern(p, n):
+    """Bernstein coefficients (degree n) of the power-basis polynomial p (ascending, len(p) <= n + 1)"""
+    return [sum(Fr(math.comb(j, k), math.comb(n, k)) * p[k] for k in range(min(j, len(p) - 1) + 1)) for j in range(n + 1)]
+
+
+def critical_net(rnd, dim, n, sstar, bound=3):
+    """integer control net of degree n >= 2 of a curve with B'(sstar) = 0 EXACTLY (a cusp for dim >= 2, a stationary
+    point for dim = 1): every coordinate is c + (q s - a)^2 Q(s) with sstar = a/q, Q a random integer polynomial of degree
+    n - 2 - that is the general form of a polynomial map whose derivative vanishes at sstar -, written in the Bernstein
+    basis and cleared of the denominators C(n, k)"""
+    a, q = sstar.numerator, sstar.denominator
+    sq = [Fr(a * a), Fr(-2 * a * q), Fr(q * q)]
+    lc = 1
+    for k in range(n + 1):
+        lc = lc * math.comb(n, k) // math.gcd(lc, math.comb(n, k))
+    rows = []
+    for _ in range(dim):
+        while True:
+            qq = [Fr(rnd.randint(-bound, bound)) for _ in range(n - 1)]
+            if qq[-1] != 0:
+                break
+        pw = X.poly_mul(sq, qq)
+        pw[0] += rnd.randint(-4, 4)
+        row = [lc * v for v in power_to_bern(pw, n)]
+        assert all(v.denominator == 1 for v in row) and d1(row, sstar) == 0
+        rows.append(row)
+    return rows
+
+
+def unjson(v):
+    if isinstance(v, list):
+        return [unjson(x) for x in v]
+    if isinstance(v, str):
+        return Fr(v)
+    return v
+
+
+def call_from_json(c):
+    return {k: (v if k in ("via", "why") else unjson(v)) for k, v in c.items()}
+
+
+def call_to_json(c):
+    return {k: (v if k in ("via", "why") else C.jfr(v)) for k, v in c.items()}
+
+
+def describe_call(c):
+    def sv(x):
+        return str(x) if x.denominator <= 2 ** 20 else repr(float(x))
+
+    def net(rows):
+        return "[%s]" % ", ".join("[%s]" % ", ".join(sv(x) for x in r) for r in rows)
+    n = len(c["nodes"][0]) - 1
+    why = c.get("why", "")
+    if c["via"] in ("newton-curve", "locate-point", "Curve.locate"):
+        where = ("s = %s" % c["s"]) if "s" in c else ""
+        return "%s on the degree-%d curve %s for the point %s %s (%s)" % (
+            {"newton-curve": "newton_refine (curve)", "locate-point": "locate_point"}.get(c["via"], c["via"]), n, net(c["nodes"]), net([c["point"]])[1:-1],
+            where, why)
+    if c["via"] == "newton-intersect":
+        return "newton_refine (curve-curve) on %s x %s at (%s, %s) (%s)" % (net(c["nodes"]), net(c["nodes2"]), c["s"], c["t"], why)
+    if c["via"] == "newton-triangle":
+        return "newton_refine (triangle) degree %d on %s for (%s, %s) at (%s, %s) (%s)" % (c["d"], net(c["nodes"]), c["x"], c["y"], c["s"], c["t"], why)
+    return "get_curvature with the tangent %s on %s at s = %s (%s)" % (net([c["tangent"]])[1:-1], net(c["nodes"]), c["s"], why)
 
 
 def tri_partial(row, d, s, t, which):
@@ -70,6 +146,8 @@ def main():
                 kw[k] = Fr(kw[k])
         if "point" in kw:
             kw["point"] = [Fr(x) for x in kw["point"]]
+        if "prior" in kw:
+            kw["prior"] = [call_from_json(c) for c in kw["prior"]]
         add(rep["kind"], **kw)
     else:
         degs = list(range(1, 31))
@@ -161,10 +239,186 @@ def main():
             b = [[Fr(1, 2) * n1, Fr(1, 2) * n1], [Fr(-4), Fr(4)]]                                          # vertical line x = n1/2
             add("newton-intersect", nodes=a, nodes2=b, s=Fr(1, 2), t=Fr(1, 4))                         # F_x = 0 exactly, F_y != 0
 
+    if not rep:
+        # near a critical point B'(s) is small but not zero: the exact Newton step is defined and is what must come back
+        for n in (range(2, 7) if not thorough else range(2, 11)):
+            for k in ((3, 6, 10) if not thorough else range(2, 13)):
+                dim = rnd.choice([1, 2, 3])
+                sstar = Fr(1, 2)
+                nodes = critical_net(rnd, dim, n, sstar, bound=2)
+                s = sstar + rnd.choice([-1, 1]) * Fr(1, 2 ** k)
+                pt = [X.bern(r, s) + Fr(rnd.randint(-2, 2), 2 ** (2 * k)) for r in nodes]
+                if all(d1(r, s) == 0 for r in nodes):
+                    continue
+                add("newton-curve", nodes=nodes, point=pt, s=s)
+
+        # ---- history independence: judged ordinary calls right after unjudged calls at degenerate-but-valid inputs.
+        # These cases come LAST, so that nothing they might leave behind in the process reaches the cases above, and each
+        # carries the degenerate call(s) that precede it (`prior`), so that a replay issues the same sequence.
+        reps = 2 if not thorough else 6
+        ZERO = Fr(0)
+
+        def regular_curve_case(prior, integer):
+            """an ordinary Newton step B(s) = p: any dimension 1..4, any degree (small ones more often), integer net at a
+            dyadic parameter or a smooth binary64 net at a binary64 parameter; B'(s) != 0 and a moderate step"""
+            while True:
+                dim = rnd.choice([1, 2, 2, 3, 4])
+                n = rnd.choice([1, 2, 3, 3, 4, 5, 6, 8, rnd.randint(9, 30)])
+                if integer:
+                    n = min(n, 8)
+                    nodes = G.int_net(rnd, dim, n + 1, 8)
+                    s0, s = Fr(rnd.randint(0, 8), 8), Fr(rnd.randint(0, 16), 16)
+                    pt = [X.bern(r, s0) + Fr(rnd.randint(-2, 2), 4) for r in nodes]
+                else:
+                    nodes = G.smooth_float_net(rnd, dim, n + 1)
+                    s0 = G.float_param(rnd, 0.1, 0.9)
+                    pt = [Fr(float(x)) + Fr(rnd.uniform(-1e-3, 1e-3)) for x in X.eval_curve(nodes, s0)]
+                    s = Fr(float(s0)) + Fr(rnd.uniform(-1e-3, 1e-3))
+                den = sum(d1(r, s) ** 2 for r in nodes)
+                num = sum((pt[r] - X.bern(nodes[r], s)) * d1(nodes[r], s) for r in range(dim))
+                # a judged case must be an honest Newton step that MOVES: B'(s) well away from 0 and a step of visible size
+                if den * 64 >= sum(d1_abs(r, s) ** 2 for r in nodes) and den != 0 and Fr(1, 2 ** 20) <= abs(num / den) <= 4:
+                    add("newton-curve-after", nodes=nodes, point=pt, s=s, prior=prior)
+                    return
+
+        def offs(dim):
+            while True:
+                o = [Fr(rnd.randint(-3, 3)) for _ in range(dim)]
+                if any(o):
+                    return o
+
+        # (1) curve / point.  B'(s) = 0 exactly: the Newton step is 0/0 (query point = B(s)) or x/0 - not judged.
+        curve_triggers = []
+        for n in (range(2, 7) if not thorough else range(2, 11)):
+            for dim in (1, 2, 3, 4):
+                sstar = rnd.choice([Fr(1, 2), Fr(1, 2), Fr(1, 4), Fr(3, 4)] if n <= 6 else [Fr(1, 2)])
+                nodes = critical_net(rnd, dim, n, sstar)
+                on = [X.bern(r, sstar) for r in nodes]
+                pt = on if rnd.random() < 0.5 else [a + b for a, b in zip(on, offs(dim))]
+                curve_triggers.append([{"via": "newton-curve", "nodes": nodes, "point": pt, "s": sstar,
+                                        "why": "B'(s) = 0 exactly: cusp / stationary point"}])
+        # the cubic of the library's documentation, also reached through the public callers that finish with a Newton step
+        # (the bisection of locate_point brackets the cusp parameter 1/2 symmetrically, its mean is 1/2 exactly)
+        doc = [[Fr(6), Fr(-2), Fr(-2), Fr(6)], [Fr(-3), Fr(3), Fr(-3), Fr(3)]]
+        curve_triggers.append([{"via": "newton-curve", "nodes": doc, "point": [ZERO, ZERO], "s": Fr(1, 2), "why": "documented cusp"}])
+        for via in ("locate-point", "Curve.locate"):
+            curve_triggers.append([{"via": via, "nodes": doc, "point": [ZERO, ZERO], "why": "the cusp point of the documented cubic"}])
+            nodes = critical_net(rnd, rnd.choice([2, 3]), rnd.choice([3, 4, 5]), Fr(1, 2))
+            curve_triggers.append([{"via": via, "nodes": nodes, "point": [X.bern(r, Fr(1, 2)) for r in nodes], "why": "the cusp point B(1/2)"}])
+        # a repeated end control point, queried at that end; unit nets e_i (i >= 2) at s = 0; a curve that is a single point
+        for n in ((2, 3, 5, 8) if not thorough else range(2, 13)):
+            for end in (0, 1):
+                dim = rnd.choice([1, 2, 3, 4])
+                nodes = G.int_net(rnd, dim, n + 1, 8)
+                for r in nodes:
+                    if end == 0:
+                        r[1] = r[0]
+                    else:
+                        r[-2] = r[-1]
+                on = [r[0] if end == 0 else r[-1] for r in nodes]
+                pt = on if rnd.random() < 0.5 else [a + b for a, b in zip(on, offs(dim))]
+                curve_triggers.append([{"via": "newton-curve", "nodes": nodes, "point": pt, "s": Fr(end), "why": "repeated end control point"}])
+        for n in (2, 3, 4):
+            i = rnd.randint(2, n)
+            curve_triggers.append([{"via": "newton-curve", "nodes": [[Fr(int(j == i)) for j in range(n + 1)]], "point": [Fr(rnd.randint(0, 1))],
+                                    "s": ZERO, "why": "unit net e_%d at s = 0" % i}])
+        for n in (1, 2, 4):
+            dim = rnd.choice([1, 2, 3])
+            c0 = [Fr(rnd.randint(-4, 4)) for _ in range(dim)]
+            curve_triggers.append([{"via": "newton-curve", "nodes": [[c] * (n + 1) for c in c0], "point": [c + 1 for c in c0],
+                                    "s": Fr(rnd.randint(0, 4), 4), "why": "all control points equal: B' = 0 everywhere"}])
+        # |B'(s)|^2 underflows to zero although B'(s) != 0 (a tiny but valid net)
+        tiny = [[Fr(v) * Fr(1, 2 ** 560) for v in r] for r in G.int_net(rnd, 2, 4, 8)]
+        curve_triggers.append([{"via": "newton-curve", "nodes": tiny, "point": [ZERO, ZERO], "s": Fr(1, 4), "why": "|B'(s)|^2 underflows"}])
+        for trig in curve_triggers:
+            for i in range(reps):
+                regular_curve_case(trig, i % 2 == 0)
+
+        # (2) curve / curve.  Singular Jacobian (documented ValueError) and exact hits (no-op), then ordinary steps.
+        def regular_intersect_case(prior):
+            n1, n2 = rnd.randint(1, 5), rnd.randint(1, 5)
+            if rnd.random() < 0.5:
+                add("newton-intersect-after", nodes=G.int_net(rnd, 2, n1 + 1, 8), nodes2=G.int_net(rnd, 2, n2 + 1, 8),
+                    s=rnd.choice(GRID[:6]), t=rnd.choice(GRID[:6]), prior=prior)
+            else:
+                add("newton-intersect-after", nodes=G.smooth_float_net(rnd, 2, n1 + 1), nodes2=[r for r in reversed(G.smooth_float_net(rnd, 2, n2 + 1))],
+                    s=G.float_param(rnd, 0.0, 1.0), t=G.float_param(rnd, 0.0, 1.0), prior=prior)
+
+        inter_triggers = []
+        for n in (1, 2, 3, 4, 5):
+            a = G.int_net(rnd, 2, n + 1, 8)
+            s = rnd.choice(GRID[2:6])
+            here = [X.bern(r, s) for r in a]
+            tan = [d1(r, s) for r in a]
+            if not any(tan):
+                continue
+            o = offs(2)
+            w = offs(2)
+            # a line parallel to the tangent at B1(s), off the curve: det J = 0, F != 0
+            inter_triggers.append([{"via": "newton-intersect", "nodes": a, "nodes2": [[here[r] + o[r], here[r] + o[r] + tan[r]] for r in range(2)],
+                                    "s": s, "t": Fr(1, 4), "why": "parallel tangents: singular Jacobian"}])
+            # a line that starts at B1(s): F = 0 exactly
+            inter_triggers.append([{"via": "newton-intersect", "nodes": a, "nodes2": [[here[r], here[r] + w[r]] for r in range(2)],
+                                    "s": s, "t": ZERO, "why": "exact hit F(s,t) = 0"}])
+            # both at once
+            inter_triggers.append([{"via": "newton-intersect", "nodes": a, "nodes2": [[here[r], here[r] + tan[r]] for r in range(2)],
+                                    "s": s, "t": ZERO, "why": "exact hit with singular Jacobian"}])
+        for n in (3, 4):
+            a = critical_net(rnd, 2, n, Fr(1, 2))
+            inter_triggers.append([{"via": "newton-intersect", "nodes": a, "nodes2": G.int_net(rnd, 2, 2, 8), "s": Fr(1, 2), "t": Fr(1, 4),
+                                    "why": "B1'(s) = 0: singular Jacobian"}])
+        for trig in inter_triggers:
+            for _ in range(reps):
+                regular_intersect_case(trig)
+
+        # (3) triangle / point.  det J = 0 (x/0, not judged) and exact hits (no-op), then ordinary steps.
+        def regular_triangle_case(prior):
+            d = rnd.randint(1, 6)
+            nodes = [[Fr(float(v)) for v in r] for r in valid_triangle(rnd, d)]
+            s0, t0 = G.float_param(rnd, 0.1, 0.4), G.float_param(rnd, 0.1, 0.4)
+            px = X.tri_eval(nodes[0], d, 1 - s0 - t0, s0, t0)
+            py = X.tri_eval(nodes[1], d, 1 - s0 - t0, s0, t0)
+            add("newton-triangle-after", nodes=nodes, d=d, x=Fr(float(px)), y=Fr(float(py)),
+                s=Fr(float(s0)) + Fr(rnd.uniform(-1e-3, 1e-3)), t=Fr(float(t0)) + Fr(rnd.uniform(-1e-3, 1e-3)), prior=prior)
+
+        tri_triggers = []
+        for d in (1, 2, 3, 4):
+            nn = G.tri_nodes_count(d)
+            lat = [[], []]
+            for kk in range(d + 1):
+                for j in range(d + 1 - kk):
+                    lat[0].append(Fr(j))
+                    lat[1].append(Fr(kk))
+            xr = [Fr(rnd.randint(-4, 4)) for _ in range(nn)]
+            tri_triggers.append([{"via": "newton-triangle", "nodes": [xr, [2 * v + 1 for v in xr]], "d": d, "x": Fr(1), "y": Fr(-1),
+                                  "s": Fr(1, 4), "t": Fr(1, 4), "why": "image on a line: det J = 0 everywhere"}])
+            if d >= 2:
+                rep_corner = [list(lat[0]), list(lat[1])]
+                rep_corner[0][1], rep_corner[1][1] = rep_corner[0][0], rep_corner[1][0]
+                tri_triggers.append([{"via": "newton-triangle", "nodes": rep_corner, "d": d, "x": Fr(1), "y": Fr(1),
+                                      "s": ZERO, "t": ZERO, "why": "repeated corner control point: B_s(0,0) = 0"}])
+            s, t = Fr(rnd.randint(0, 2), 4), Fr(rnd.randint(0, 2), 4)
+            tri_triggers.append([{"via": "newton-triangle", "nodes": lat, "d": d, "x": X.tri_eval(lat[0], d, 1 - s - t, s, t),
+                                  "y": X.tri_eval(lat[1], d, 1 - s - t, s, t), "s": s, "t": t, "why": "exact hit"}])
+        for trig in tri_triggers:
+            for _ in range(reps):
+                regular_triangle_case(trig)
+
+        # (4) curvature with a zero tangent vector (0/0, not judged), then ordinary curvatures
+        for n in (2, 3, 4, 5):
+            nodes = critical_net(rnd, 2, n, Fr(1, 2))
+            trig = [{"via": "curvature", "nodes": nodes, "tangent": [ZERO, ZERO], "s": Fr(1, 2), "why": "zero tangent at a cusp"}]
+            for _ in range(reps):
+                m = rnd.randint(1, 8)
+                add("curvature-after", nodes=G.int_net(rnd, 2, m + 1, 16), s=rnd.choice(GRID[:6]), prior=trig)
+                add("curvature-after", nodes=G.smooth_float_net(rnd, 2, m + 1), s=G.float_param(rnd, 0.0, 1.0), prior=trig)
+
     # ---- model queries for the curve part
     drv = C.Driver()
     midx = []
     for kind, kw in cases:
+        if kind.endswith("-after"):
+            kind = kind[:-len("-after")]
         if kind == "hodograph":
             midx.append(drv.ask("hodograph", thr, kw["nodes"], kw["s"]))
         elif kind == "newton-curve":
@@ -177,20 +431,102 @@ def main():
             midx.append(drv.ask("newton_refine_triangle", thr, kw["d"], kw["nodes"], kw["x"], kw["y"], kw["s"], kw["t"]))
         else:
             midx.append(None)
-    replies = drv.run()
+    replies = drv.run() if drv.lines else []      # (a replayed case of a kind without a model query asks nothing)
+
+    def col(vals):
+        return np.asfortranarray([[float(x)] for x in vals])
+
+    def run_prior(prior):
+        """calls at degenerate-but-valid inputs, made for what they may leave behind: whatever they return or raise is
+        accepted (the property does not determine it)"""
+        for c in prior:
+            issued.append(c)
+            try:
+                with np.errstate(all="ignore"), warnings.catch_warnings():
+                    warnings.simplefilter("ignore")
+                    a = C.farr(c["nodes"])
+                    via = c["via"]
+                    if via == "newton-curve":
+                        CH.newton_refine(a, col(c["point"]), float(c["s"]))
+                    elif via == "locate-point":
+                        CH.locate_point(a, col(c["point"]))
+                    elif via == "Curve.locate":
+                        bezier.Curve(a, a.shape[1] - 1).locate(col(c["point"]))
+                    elif via == "newton-intersect":
+                        IH.newton_refine(float(c["s"]), a, float(c["t"]), C.farr(c["nodes2"]))
+                    elif via == "newton-triangle":
+                        TI.newton_refine(a, c["d"], float(c["x"]), float(c["y"]), float(c["s"]), float(c["t"]))
+                    elif via == "curvature":
+                        CH.get_curvature(a, col(c["tangent"]), float(c["s"]))
+                    else:
+                        raise KeyError(via)
+            except KeyError:
+                raise
+            except Exception:  # noqa
+                pass
+
+    def reproduces(rc_):
+        """does this replay case fail in a FRESH process?"""
+        env = dict(os.environ, VERIF_REPLAY=json.dumps(rc_))
+        env.pop("VERIF_RESULT", None)
+        try:
+            r = subprocess.run([sys.executable, os.path.abspath(__file__)], env=env, stdout=subprocess.PIPE, stderr=subprocess.STDOUT,
+                               text=True, timeout=300)
+        except subprocess.TimeoutExpired:
+            return False
+        return r.returncode == 1 and "replay: property fails" in r.stdout
+
+    issued = []            # every degenerate call made so far in this process, in order
+    confirmed_keys = set()
+    n_fail_before = [0]
+    pending = []
+
+    def settle_history(kind_, kw_, rc_):
+        """a `*-after` case failed: record the SHORTEST sequence of earlier calls that reproduces it in a fresh process -
+        the case's own degenerate call, else every degenerate call issued so far"""
+        for f in res.failures[n_fail_before[0]:]:
+            if f["key"] in confirmed_keys or rep:
+                continue
+            confirmed_keys.add(f["key"])
+            if reproduces(rc_):
+                f["what"] += "  [reproduced in a fresh process with exactly this sequence of calls]"
+                continue
+            full = {"kind": kind_, "kw": dict(rc_["kw"], prior=[call_to_json(c) for c in issued])}
+            if reproduces(full):
+                f["replay"] = full
+                f["what"] += "  [needs the %d earlier degenerate calls of this run, all carried by the replay case]" % len(issued)
+            else:
+                f["replay"] = full
+                f["what"] += "  [NOT reproduced in a fresh process: depends on more of this run's history than the degenerate calls]"
 
     for (kind, kw), mi in zip(cases, midx):
         nodes = kw["nodes"]
         dim = len(nodes)
         arr = C.farr(nodes)
-        jkw = {k: (C.jfr(v) if k != "pts" else [[str(a), str(b)] for a, b in v]) for k, v in kw.items()}
+        jkw = {k: (C.jfr(v) if k not in ("pts", "prior") else [[str(a), str(b)] for a, b in v] if k == "pts" else [call_to_json(c) for c in v])
+               for k, v in kw.items()}
         if dim > 4 and "nodes" in jkw:
             jkw["nodes"] = jkw["nodes"][:2]
         rc = {"kind": kind, "kw": jkw}
+        # `*-after`: first the degenerate call(s), then the ordinary case, judged as always; failures get their own key
+        full_kind, sfx, hist = kind, "", ""
+        if pending and len(res.failures) > n_fail_before[0]:
+            settle_history(*pending[0])
+        del pending[:]
+        n_fail_before[0] = len(res.failures)
+        if kind.endswith("-after"):
+            pending.append((kind, kw, rc))
+        if kind.endswith("-after"):
+            kind = kind[:-len("-after")]
+            sfx = ":after-degenerate-call"
+            hist = "; the call was preceded by: " + "; then ".join(describe_call(c) for c in kw["prior"])
+            run_prior(kw["prior"])
         keyn = C.jfr(nodes) if dim <= 4 else ("identity", len(nodes[0]))
-        res.count((kind, keyn, str(kw.get("s")), str(kw.get("t")), str(kw.get("d"))), kind=kind,
+        res.count((full_kind, keyn, str(kw.get("s")), str(kw.get("t")), str(kw.get("d")), str(jkw.get("prior"))), kind=full_kind,
                   size=len(nodes[0]), dim=min(dim, 5), regime=kw.get("regime", "T"))
-        res.sample({"kind": kind, "num_nodes": len(nodes[0]), "dim": dim, "s": str(kw.get("s"))})
+        if sfx:
+            res.count(("trigger", str(jkw["prior"])), nontrivial=False, degenerate_call=kw["prior"][-1]["via"] + ": " + kw["prior"][-1].get("why", ""))
+        res.sample({"kind": full_kind, "num_nodes": len(nodes[0]), "dim": dim, "s": str(kw.get("s"))})
         try:
             if kind == "hodograph":
                 s = kw["s"]
@@ -253,9 +589,9 @@ def main():
                 scale = float(abs(ftx) * cabs[1] + abs(fty) * cabs[0]) / (math.sqrt(float(nrm2)) ** 3)
                 tol = 4 * (3 * n + 12) * float(U) * scale + 8 * float(U) * abs(spec)
                 if n == 1 and got != 0.0:
-                    res.failure("curvature-line-nonzero", "get_curvature of a line returned %r" % got, rc)
+                    res.failure("curvature-line-nonzero" + sfx, "get_curvature of a line returned %r" % got + hist, rc)
                 elif abs(got - spec) > tol:
-                    res.failure("curvature-wrong", "get_curvature degree %d at s=%s: %r vs (B' x B'')/|B'|^3 = %r (tol %.3e)" % (n, float(s), got, spec, tol), rc)
+                    res.failure("curvature-wrong" + sfx, "get_curvature degree %d at s=%s: %r vs (B' x B'')/|B'|^3 = %r (tol %.3e)" % (n, float(s), got, spec, tol) + hist, rc)
             elif kind == "newton-curve":
                 s = kw["s"]
                 n = len(nodes[0]) - 1
@@ -272,7 +608,10 @@ def main():
                 tol = 4 * (3 * n + 12) * U * (abs(s) + nabs / den + abs(num) * dabs / den ** 2)
                 if abs(got - model) > tol:
                     res.mismatch("newton_refine(curve)", rc, str(got), str(model), "T regime")
-                    res.failure("newton-curve-wrong", "newton_refine (curve) degree %d: %s vs exact Newton step %s" % (n, float(got), float(spec)), rc)
+                    short = all(x.denominator <= 64 for r in nodes for x in r) and n <= 8
+                    res.failure("newton-curve-wrong" + sfx, "newton_refine (curve) degree %d, dimension %d, nodes %s, point %s, s = %s: returned %r, exact Newton step %s = %r%s" %
+                                (n, dim, [[str(x) for x in r] for r in nodes] if short else "(binary64, see the replay case)", [str(x) for x in kw["point"]] if short else "(see the replay case)",
+                                 s if short else float(s), float(got), spec if short else "", float(spec), hist), rc)
             elif kind == "newton-double-system":
                 n2 = kw["nodes2"]
                 arr2 = C.farr(n2)
@@ -357,9 +696,9 @@ def main():
                 except ValueError:
                     # documented: raised when the Jacobian is singular; legitimate iff det J = 0 (up to rounding)
                     if f[0] == 0 and f[1] == 0:
-                        res.failure("newton-noop-raised", "F(s,t)=0 exactly but newton_refine raised", rc)
+                        res.failure("newton-noop-raised" + sfx, "F(s,t)=0 exactly but newton_refine raised" + hist, rc)
                     elif abs(det) > 2 ** 10 * U * singular_scale:
-                        res.failure("newton-singular-raised-wrongly", "newton_refine raised ValueError although det J = %s is far from 0" % float(det), rc)
+                        res.failure("newton-singular-raised-wrongly" + sfx, "newton_refine raised ValueError although det J = %s is far from 0" % float(det) + hist, rc)
                     else:
                         res.skip("singular Jacobian (documented ValueError)")
                     continue
@@ -385,8 +724,8 @@ def main():
                 # backward-error test amplified by the (exact) growth factor of Gaussian elimination with the code's pivoting
                 growth = 1 + max(abs(a), abs(b), abs(c), abs(d)) ** 2 / abs(det)
                 if r0 > lim0 * growth or r1 > lim1 * growth:
-                    res.failure("newton-intersect-wrong", "newton_refine (curve-curve): step (%.6g, %.6g) vs exact (%.6g, %.6g); linear residual %.3e/%.3e beyond allowance" %
-                                (float(rs), float(rt), float(ds), float(dt), float(r0), float(r1)), rc)
+                    res.failure("newton-intersect-wrong" + sfx, "newton_refine (curve-curve): step (%.6g, %.6g) vs exact (%.6g, %.6g); linear residual %.3e/%.3e beyond allowance" %
+                                (float(rs), float(rt), float(ds), float(dt), float(r0), float(r1)) + hist, rc)
             elif kind == "jacobian-both":
                 d = kw["d"]
                 out = np.asarray(TH.jacobian_both(arr, d, dim))
@@ -443,10 +782,12 @@ def main():
                 cond = (abs(xs) + abs(xt) + abs(ys) + abs(yt)) ** 2 / abs(det)
                 tol = 64 * (3 * d + 12) * U * cond * (X.tri_eval_abs(nodes[0], d, abs(l1), abs(s), abs(t)) + X.tri_eval_abs(nodes[1], d, abs(l1), abs(s), abs(t)) + abs(x) + abs(y)) / (abs(xs) + abs(xt) + abs(ys) + abs(yt)) + 8 * U * (abs(s) + abs(t))
                 if abs(rs - ds) > tol or abs(rt - dt) > tol:
-                    res.failure("newton-triangle-wrong", "newton_refine (triangle) degree %d: step (%.6g,%.6g) vs exact Cramer (%.6g,%.6g), tol %.3e" %
-                                (d, float(rs), float(rt), float(ds), float(dt), float(tol)), rc)
+                    res.failure("newton-triangle-wrong" + sfx, "newton_refine (triangle) degree %d: step (%.6g,%.6g) vs exact Cramer (%.6g,%.6g), tol %.3e" %
+                                (d, float(rs), float(rt), float(ds), float(dt), float(tol)) + hist, rc)
         except Exception as exc:  # noqa
-            res.failure("raised:%s:%s" % (kind, type(exc).__name__), "%s raised %r" % (kind, exc), rc)
+            res.failure("raised:%s:%s" % (full_kind, type(exc).__name__), "%s raised %r" % (full_kind, exc) + hist, rc)
+    if pending and len(res.failures) > n_fail_before[0]:
+        settle_history(*pending[0])
     res.emit()
     if rep:
         bad = bool(res.failures)
